@@ -19,6 +19,36 @@
 (*      has room under T                                                   *)
 (*   E4 T >= 1: single-token demand is not left unserved for StarveBound   *)
 (*      consecutive seconds                                                *)
+(*                                                                         *)
+(* THROTTLING rules (new.cb = 1, MaxQueueingTimeMs new.q): the same rule   *)
+(* parameters, the threshold now SPACES the admissions.  Single-token      *)
+(* requests only; times in microseconds since the start of the trace:      *)
+(*   preq  t, ok, w      one api.Entry at t; admitted after waiting w (the *)
+(*                       sleep requested from the virtual clock), or not   *)
+(*   prej  n, t0, t1     n consecutive requests at t0 .. t1 (one aligned   *)
+(*                       second, evenly spread), every one rejected        *)
+(* The same envelope, with the admitted rate read as pacing (tokens are    *)
+(* counted in the aligned second of their ADMISSION time t + w):           *)
+(*   E1 RateOK: an aligned second never holds more than ceil(T) admissions *)
+(*   E2 in a cold second (as above) never more than ColdCap                *)
+(*   E3 after WarmEnough whole seconds of SATURATING demand the full       *)
+(*      threshold is in force: a request is rejected only within 1/T of    *)
+(*      the last admission, and is never made to wait beyond that.         *)
+(*      Saturating = a run of requests that each found the rule busy       *)
+(*      (rejected, or admitted only after a wait) and are never further    *)
+(*      apart than the time a request may queue: then every admission is   *)
+(*      taken at the very instant it is due, the admissions of such a      *)
+(*      second are exactly the spacing 1/allowed (WarmUpOps!Paced, the     *)
+(*      assumption under which TLC proves WarmAfterSat for throttling      *)
+(*      rules).  An admission without any wait ends the run, unless it     *)
+(*      comes less than half a spacing 1/T after a request of the run that *)
+(*      found the rule busy (the threshold rose at the second boundary and *)
+(*      the admission was taken less than one spacing late: the second     *)
+(*      still holds floor(allowed) admissions or more).                    *)
+(*   E4 as above                                                           *)
+(* The transcription state is advanced the same way (previous QPS = tokens *)
+(* admitted in the shifted 1 s view) and reported with a mismatch.         *)
+(*                                                                         *)
 (* CONFORMANCE (reported as a DRIFT line, never a verdict): every decision *)
 (* equals the decision of the rational transcription WarmUpOps, either     *)
 (* decision being accepted when cur + b equals the rational threshold.     *)
@@ -37,9 +67,11 @@ VARIABLES
     secs,       \* aligned second -> [req1, blk, adm]: single-token requests, rejections, admitted tokens
     sos,        \* every request so far arrived in the first half of its second
     stored, lastSync,    \* transcription state
+    la,         \* throttling: time of the last admission (microseconds; -1: none)
+    dfrom, dlast,        \* throttling: the current run of saturating demand began at dfrom and reaches dlast (-1: none)
     g, failed, drifted
 
-tvars == <<l, now, cfg, ref, secs, sos, stored, lastSync, g, failed, drifted>>
+tvars == <<l, now, cfg, ref, secs, sos, stored, lastSync, la, dfrom, dlast, g, failed, drifted>>
 
 Ev == Trace[l]
 Has(r, f) == f \in DOMAIN r
@@ -66,9 +98,11 @@ RunBack(s, lim, kind) == IF lim = 0 \/ s < 0 \/ ~Is(SecAt(s), kind) THEN 0 ELSE 
 TNew ==
     /\ IsEvent("new")
     /\ now' = Ev.t /\ Ev.t > 0
-    /\ cfg' = [tn |-> Ev.tn, td |-> Ev.td, p |-> Ev.p, c |-> Ev.c]
+    /\ cfg' = [tn |-> Ev.tn, td |-> Ev.td, p |-> Ev.p, c |-> Ev.c,
+               cb |-> IF Has(Ev, "cb") THEN Ev.cb ELSE 0, q |-> IF Has(Ev, "q") THEN Ev.q ELSE 0]
     /\ ref' = << >> /\ secs' = << >> /\ sos' = TRUE
     /\ stored' = 0 /\ lastSync' = -1
+    /\ la' = -1 /\ dfrom' = -1 /\ dlast' = -1
     /\ g' = [tr |-> Ev.tr]
     /\ failed' = FALSE /\ drifted' = FALSE
 
@@ -78,10 +112,11 @@ TTick ==
     /\ now' = Ev.t
     /\ ref' = Prune(ref, BL, 2 * IV, Ev.t)
     /\ secs' = [s \in { x \in DOMAIN secs : x >= Align(Ev.t, 1000) - 1000 * (4 * cfg.p + 12) } |-> secs[s]]
-    /\ UNCHANGED <<cfg, sos, stored, lastSync, g, failed, drifted>>
+    /\ UNCHANGED <<cfg, sos, stored, lastSync, la, dfrom, dlast, g, failed, drifted>>
 
 TReq ==
     /\ IsEvent("req")
+    /\ ~Throttled(cfg)
     /\ LET S    == Align(now, 1000)
            b    == Ev.b
            cur  == RefSum(ref, BL, now, IV, "pass")             \* tokens in the aligned window right now
@@ -120,10 +155,106 @@ TReq ==
        /\ ref' = IF Ev.ok THEN RefAdd(ref, PK, BL, now, "pass", b) ELSE ref
        /\ secs' = [s \in DOMAIN secs \cup {S} |-> IF s = S THEN mine ELSE secs[s]]
        /\ sos' = sos2
-    /\ UNCHANGED <<now, cfg, g>>
+    /\ UNCHANGED <<now, cfg, la, dfrom, dlast, g>>
 
-TInit == /\ l = 1 /\ now = 0 /\ cfg = [tn |-> 1, td |-> 1, p |-> 1, c |-> 3] /\ ref = << >> /\ secs = << >> /\ sos = TRUE
-         /\ stored = 0 /\ lastSync = -1 /\ g = [tr |-> 0] /\ failed = FALSE /\ drifted = FALSE
-TNext == TNew \/ TTick \/ TReq
+---------------------------------------------------------------------------
+(* throttling rules *)
+US == 1000000
+DenseGap == cfg.q * 1000                 \* microseconds a request may queue
+SecUs(t) == (t \div US) * US
+UpUs(t)  == ((t + US - 1) \div US) * US
+\* whole aligned seconds of saturating demand that precede the second of t, for a run that began at df
+SatRunT(df, t) == IF df >= 0 /\ SecUs(t) >= UpUs(df) THEN (SecUs(t) - UpUs(df)) \div US ELSE 0
+\* a request at t that finds the rule busy continues the run of saturating demand
+Cont(t) == cfg.q > 0 /\ dlast >= 0 /\ t - dlast <= DenseGap
+\* transcription: stored tokens after the sync executed by a request at tms (milliseconds)
+PSync(tms) == LET S == Align(tms, 1000)
+                  prev == RefPrevSum(ref, BL, tms, BL, IV, "pass")
+                  gap  == IF lastSync < 0 THEN -1 ELSE (S - lastSync) \div 1000
+              IN  IF S > lastSync THEN Sync(cfg, stored, gap, prev) ELSE stored
+ColdAt(S) == RunBack(S - 1000, IdleEnough(cfg), "idle") >= IdleEnough(cfg) \/ (\A s \in DOMAIN secs : s >= S)
+StarveAt(S) == IF SecAt(S).adm = 0 THEN 1 + RunBack(S - 1000, StarveBound(cfg), "starve") ELSE 0
+
+TPReq ==
+    /\ IsEvent("preq")
+    /\ Throttled(cfg)
+    /\ LET t    == Ev.t
+           tms  == t \div 1000
+           S    == Align(tms, 1000)
+           ta   == t + Ev.w                              \* admission time
+           tams == ta \div 1000
+           SA   == Align(tams, 1000)
+           cur  == SecAt(SA).adm                         \* admitted so far in the aligned second of the admission
+           st   == PSync(tms)
+           al   == Allowed(cfg, st)
+           waited == ~Ev.ok \/ Ev.w > 0                  \* the request found the rule busy
+           onTime == Cont(t) /\ (t - dlast) * cfg.tn * 2 <= US * cfg.td     \* unwaited, yet (almost) at the instant it was due
+           df   == IF waited THEN (IF Cont(t) THEN dfrom ELSE t) ELSE (IF onTime THEN dfrom ELSE -1)
+           satRun == SatRunT(df, t)
+           warm == satRun >= WarmEnough(cfg)
+           cold == SA = S /\ ColdAt(S)
+           starveRun == StarveAt(S)
+           E1 == RateOK(cfg, cur + 1)
+           E2 == cold => (cur + 1) <= ColdCap(cfg)
+           E3a == (warm /\ Ev.w > 0) => (la >= 0 /\ NotAfter(cfg, ta - la))
+           E3r == warm => (cfg.tn < cfg.td \/ (la >= 0 /\ Within(cfg, t - la)))
+           E4 == ~(cfg.tn >= cfg.td /\ starveRun >= StarveBound(cfg))
+           why == IF Ev.ok THEN (IF ~E1 THEN "E1-above-threshold" ELSE IF ~E2 THEN "E2-not-cold-after-idle"
+                                 ELSE "E3-not-warm-after-sustained-demand")
+                           ELSE (IF ~E3r THEN "E3-not-warm-after-sustained-demand" ELSE "E4-starved")
+           upd(s) == [req1 |-> SecAt(s).req1 + (IF s = S THEN 1 ELSE 0),
+                      blk  |-> SecAt(s).blk + (IF s = S /\ waited THEN 1 ELSE 0),
+                      adm  |-> SecAt(s).adm + (IF s = SA /\ Ev.ok THEN 1 ELSE 0)]
+       IN
+       /\ Ev.w >= 0 /\ tms >= now
+       /\ Judge(IF Ev.ok THEN E1 /\ E2 /\ E3a ELSE E3r /\ E4,
+                [why |-> why, window |-> cur, b |-> 1, T |-> <<cfg.tn, cfg.td>>, coldcap |-> ColdCap(cfg), cold |-> cold,
+                 satRun |-> satRun, starveRun |-> starveRun, model_allowed |-> <<al.n, al.d>>, model_tokens |-> st,
+                 t |-> t, w |-> Ev.w, last_admission |-> la, q |-> cfg.q])
+       /\ stored' = st
+       /\ lastSync' = Max2(lastSync, S)
+       /\ ref' = IF Ev.ok THEN RefAdd(ref, PK, BL, tams, "pass", 1) ELSE ref
+       /\ secs' = [s \in DOMAIN secs \cup {S} \cup (IF Ev.ok THEN {SA} ELSE {}) |-> IF s \in {S, SA} THEN upd(s) ELSE secs[s]]
+       /\ la' = IF Ev.ok THEN ta ELSE la
+       /\ dfrom' = df
+       /\ dlast' = IF waited THEN (IF Ev.ok THEN ta ELSE t) ELSE (IF onTime THEN t ELSE -1)
+    /\ UNCHANGED <<now, cfg, sos, g, drifted>>
+
+TPRej ==
+    /\ IsEvent("prej")
+    /\ Throttled(cfg)
+    /\ LET t0   == Ev.t0
+           t1   == Ev.t1
+           tms  == t0 \div 1000
+           S    == Align(tms, 1000)
+           st   == PSync(tms)
+           al   == Allowed(cfg, st)
+           inner == cfg.q > 0 /\ (t1 - t0) <= (Ev.n - 1) * DenseGap       \* the n requests themselves are dense
+           cont == Cont(t0) /\ inner
+           df   == IF cont THEN dfrom ELSE IF inner THEN t0 ELSE t1
+           satRun == SatRunT(df, t1)
+           warm == satRun >= WarmEnough(cfg)
+           starveRun == StarveAt(S)
+           E3r == warm => (cfg.tn < cfg.td \/ (la >= 0 /\ Within(cfg, t1 - la)))
+           E4 == ~(cfg.tn >= cfg.td /\ starveRun >= StarveBound(cfg))
+           mine == [req1 |-> SecAt(S).req1 + Ev.n, blk |-> SecAt(S).blk + Ev.n, adm |-> SecAt(S).adm]
+       IN
+       /\ Ev.n >= 1 /\ t1 >= t0 /\ tms >= now /\ Align(t1 \div 1000, 1000) = S
+       /\ Judge(E3r /\ E4,
+                [why |-> IF ~E3r THEN "E3-not-warm-after-sustained-demand" ELSE "E4-starved", window |-> SecAt(S).adm, b |-> 1,
+                 T |-> <<cfg.tn, cfg.td>>, coldcap |-> ColdCap(cfg), cold |-> FALSE, satRun |-> satRun, starveRun |-> starveRun,
+                 model_allowed |-> <<al.n, al.d>>, model_tokens |-> st, t |-> t1, rejected |-> Ev.n, last_admission |-> la,
+                 q |-> cfg.q])
+       /\ stored' = st
+       /\ lastSync' = Max2(lastSync, S)
+       /\ secs' = [s \in DOMAIN secs \cup {S} |-> IF s = S THEN mine ELSE secs[s]]
+       /\ dfrom' = df
+       /\ dlast' = t1
+    /\ UNCHANGED <<now, cfg, ref, sos, la, g, drifted>>
+
+TInit == /\ l = 1 /\ now = 0 /\ cfg = [tn |-> 1, td |-> 1, p |-> 1, c |-> 3, cb |-> 0, q |-> 0] /\ ref = << >> /\ secs = << >> /\ sos = TRUE
+         /\ stored = 0 /\ lastSync = -1 /\ la = -1 /\ dfrom = -1 /\ dlast = -1
+         /\ g = [tr |-> 0] /\ failed = FALSE /\ drifted = FALSE
+TNext == TNew \/ TTick \/ TReq \/ TPReq \/ TPRej
 TSpec == TInit /\ [][TNext]_tvars
 =============================================================================
